@@ -55,6 +55,12 @@ type Frame struct {
 	bindings []Value
 	params   []Value
 	sparseIdx map[ssa.Value]int // index register -> physical cell (range driver over sparse slices)
+	nilTested map[*ssa.BasicBlock]nilTest // block entered because m[k] == nil
+}
+
+type nilTest struct {
+	m   RefV
+	key Value
 }
 
 type Loop struct {
@@ -338,6 +344,9 @@ func (ex *Exec) sparseRange(fr *Frame, L *Loop) bool {
 		return false
 	}
 	sv, ok := ex.operand(fr, sl).(RefV)
+	if ex.trace {
+		fmt.Printf("SPARSERANGE %s sparse=%v alts=%d\n", fr.fn.Name(), ok && isSparse(sv), len(sv.Alts))
+	}
 	if !ok || !isSparse(sv) {
 		return false
 	}
@@ -754,6 +763,12 @@ func (ex *Exec) store(fr *Frame, ptr Value, val Value, pos token.Pos) {
 		if c.IsFalse() {
 			continue
 		}
+		if _, isArr := at.Obj.val.(ArrayV); isArr && len(at.P) > 0 {
+			at.Obj.markDirty(at.P[0])
+		}
+		if at.Obj.allocG == c {
+			c = True // the object only exists on these paths
+		}
 		at.Obj.val = setPath(at.Obj.val, at.P, func(old Value) Value { return MergeV(c, val, old) })
 	}
 }
@@ -817,7 +832,7 @@ func (ex *Exec) mapUpdate(fr *Frame, m RefV, key, val Value, pos token.Pos) {
 		sameSlot := false
 		for _, e := range mt.M.entries {
 			if sameKeyTerm(e.Key, key) {
-				if rv := ex.recycleMap(a.C, g, e, val); rv != nil {
+				if rv := ex.recycleMap(a.C, g, e, val, fr.idiomNil(m, key)); rv != nil {
 					val = rv
 				}
 				e.Val = MergeV(g, val, e.Val)
@@ -838,6 +853,13 @@ func (ex *Exec) mapUpdate(fr *Frame, m RefV, key, val Value, pos token.Pos) {
 			anyHit = Or(anyHit, hit)
 		}
 		live := And(g, Not(anyHit))
+		if ex.trace {
+			ks := "?"
+			if sv, ok := key.(StrV); ok {
+				ks = sv.T.Pretty(2)
+			}
+			fmt.Printf("MAPUPDATE-NEW in %s key=%s entries=%d live=%v\n", fr.fn.Name(), ks, len(mt.M.entries), !live.IsFalse())
+		}
 		if !live.IsFalse() {
 			mt.M.entries = append(mt.M.entries, &MapEntry{Live: live, Key: key, Val: val})
 		}
@@ -883,7 +905,21 @@ func impliesNot(g, t *Term) bool {
 // current map M_k is provably unreachable on the storing paths (the store guard contains the
 // slot's nil test), the fresh empty map is identified with M_k (whose entries are killed on
 // those paths) instead of becoming another alternative.
-func (ex *Exec) recycleMap(mapCond, g *Term, e *MapEntry, val Value) Value {
+// idiomNil: the current block was entered through `if m[k] == nil` on this very map and key.
+func (fr *Frame) idiomNil(m RefV, key Value) bool {
+	nt, ok := fr.nilTested[fr.cur]
+	if !ok || !sameKeyTerm(nt.key, key) || len(nt.m.Alts) != len(m.Alts) {
+		return false
+	}
+	for i := range m.Alts {
+		if targetKey(nt.m.Alts[i].Tgt) != targetKey(m.Alts[i].Tgt) {
+			return false
+		}
+	}
+	return true
+}
+
+func (ex *Exec) recycleMap(mapCond, g *Term, e *MapEntry, val Value, idiom bool) Value {
 	nv, ok := val.(RefV)
 	if !ok || len(nv.Alts) != 1 || !nv.Alts[0].C.IsTrue() {
 		return nil
@@ -902,13 +938,15 @@ func (ex *Exec) recycleMap(mapCond, g *Term, e *MapEntry, val Value) Value {
 			continue
 		}
 		t := And(And(mapCond, e.Live, True), oa.C) // same construction as mapLookup
-		if !impliesNot(g, t) {
+		if idiom {
+			// structurally the lookup-or-create idiom: the slot is nil on every storing path
+		} else if !impliesNot(g, t) {
 			if ex.trace {
 				fmt.Printf("RECYCLE-NO key=%v t=%s\n   g=%s\n", e.Key, t.Pretty(3), g.Pretty(3))
 			}
 			continue
 		}
-		if om.M.created != nil && !(om.M.created == oa.C || impliesNot(g, om.M.created)) {
+		if !idiom && om.M.created != nil && !(om.M.created == oa.C || impliesNot(g, om.M.created)) {
 			continue
 		}
 		ng := Not(g)
